@@ -348,20 +348,20 @@ theorem bumpRx_withStats (sw : Sw) (no len : Nat) :
   rfl
 
 /-- a packet-out on a well-formed frame -/
-theorem packetOut_spec (sw : Sw) (hr : RulesOk sw.table) (acts : List Action) (hargs : ∀ a ∈ acts, ArgsOk a) (f : Frame)
+theorem packetOutCore_spec (sw : Sw) (hr : RulesOk sw.table) (acts : List Action) (hargs : ∀ a ∈ acts, ArgsOk a) (f : Frame)
     (hw : f.WF) (inPort : Nat) :
-    packetOut {} sw acts f inPort = .ok (sw.withStats (tally sw.stats (emitted sw acts f inPort)), emitted sw acts f inPort) := by
+    packetOutCore {} sw acts f inPort = .ok (sw.withStats (tally sw.stats (emitted sw acts f inPort)), emitted sw acts f inPort) := by
   have := run_spec 7 sw hr acts hargs sw.stats f hw inPort
   simp only [withStats_self] at this
-  simp [packetOut, depth, this, dropFrame]
+  simp [packetOutCore, depth, this, dropFrame]
 
 /-- a well-formed frame from the wire -/
-theorem rxWire_spec (sw : Sw) (hr : RulesOk sw.table) (f : Frame) (hw : f.WF) (inPort : Nat) (wire : Bytes) :
-    rxWire {} sw f inPort wire =
+theorem rxWireCore_spec (sw : Sw) (hr : RulesOk sw.table) (f : Frame) (hw : f.WF) (inPort : Nat) (wire : Bytes) :
+    rxWireCore {} sw f inPort wire =
       .ok (if accepts sw f inPort then
              sw.withStats (tally (bumpRx sw inPort wire.length).stats (rxOuts sw f inPort wire))
            else sw, rxOuts sw f inPort wire) := by
-  unfold rxWire rxThen accepts rxOuts accepts
+  unfold rxWireCore rxThen accepts rxOuts accepts
   rcases Option.eq_none_or_eq_some (findPort sw.ports inPort) with hf | ⟨p, hf⟩
   · simp [hf, dropFrame]
   · simp only [hf]
@@ -377,12 +377,12 @@ theorem rxWire_spec (sw : Sw) (hr : RulesOk sw.table) (f : Frame) (hw : f.WF) (i
 
 /-- a well-formed packet object handed to `rx_packet` without its wire bytes: the byte counter moves by the length of its
 wire form, a table miss sends that wire form -/
-theorem rxObj_spec (sw : Sw) (hr : RulesOk sw.table) (f : Frame) (hw : f.WF) (inPort : Nat) :
-    rxObj {} sw f inPort =
+theorem rxObjCore_spec (sw : Sw) (hr : RulesOk sw.table) (f : Frame) (hw : f.WF) (inPort : Nat) :
+    rxObjCore {} sw f inPort =
       .ok (if accepts sw f inPort then
              sw.withStats (tally (bumpRx sw inPort (serF f).length).stats (rxObjOuts sw f inPort))
            else sw, rxObjOuts sw f inPort) := by
-  unfold rxObj rxThen accepts rxObjOuts accepts
+  unfold rxObjCore rxThen accepts rxObjOuts accepts
   rcases Option.eq_none_or_eq_some (findPort sw.ports inPort) with hf | ⟨p, hf⟩
   · simp [hf, dropFrame]
   · simp only [hf]
@@ -395,6 +395,96 @@ theorem rxObj_spec (sw : Sw) (hr : RulesOk sw.table) (f : Frame) (hw : f.WF) (in
       rw [e, this]
       rfl
     · simp [ha, dropFrame]
+
+/-- the operations with the buffers settled: the log is `settle free` of the specification's, the free count drops by the
+packet-ins that got a buffer -/
+theorem packetOut_spec (sw : Sw) (hr : RulesOk sw.table) (acts : List Action) (hargs : ∀ a ∈ acts, ArgsOk a) (f : Frame)
+    (hw : f.WF) (inPort : Nat) :
+    packetOut {} sw acts f inPort =
+      .ok ({ sw with stats := tally sw.stats (emitted sw acts f inPort),
+                     bufFree := (settle sw.bufFree (emitted sw acts f inPort)).1 },
+           (settle sw.bufFree (emitted sw acts f inPort)).2) := by
+  unfold packetOut
+  rw [packetOutCore_spec sw hr acts hargs f hw inPort]
+  rfl
+
+theorem rxWire_spec (sw : Sw) (hr : RulesOk sw.table) (f : Frame) (hw : f.WF) (inPort : Nat) (wire : Bytes) :
+    rxWire {} sw f inPort wire =
+      .ok ({ (if accepts sw f inPort then
+                sw.withStats (tally (bumpRx sw inPort wire.length).stats (rxOuts sw f inPort wire))
+              else sw) with bufFree := (settle sw.bufFree (rxOuts sw f inPort wire)).1 },
+           (settle sw.bufFree (rxOuts sw f inPort wire)).2) := by
+  unfold rxWire
+  rw [rxWireCore_spec sw hr f hw inPort wire]
+  rfl
+
+theorem rxObj_spec (sw : Sw) (hr : RulesOk sw.table) (f : Frame) (hw : f.WF) (inPort : Nat) :
+    rxObj {} sw f inPort =
+      .ok ({ (if accepts sw f inPort then
+                sw.withStats (tally (bumpRx sw inPort (serF f).length).stats (rxObjOuts sw f inPort))
+              else sw) with bufFree := (settle sw.bufFree (rxObjOuts sw f inPort)).1 },
+           (settle sw.bufFree (rxObjOuts sw f inPort)).2) := by
+  unfold rxObj
+  rw [rxObjCore_spec sw hr f hw inPort]
+  rfl
+
+def isPin : Out → Bool
+  | .packetIn .. => true
+  | _ => false
+
+/-- the packet-ins of a log -/
+def pins (outs : List Out) : Nat := (outs.filter isPin).length
+
+def setBuffered (b : Bool) : Out → Out
+  | .packetIn p r d dl _ => .packetIn p r d dl b
+  | o => o
+
+theorem pins_cons (x : Out) (rest : List Out) : pins (x :: rest) = (if isPin x then 1 else 0) + pins rest := by
+  unfold pins
+  cases h : isPin x <;> simp [List.filter_cons, h]; omega
+
+/-- **what `settle` does, position by position**: a packet-in gets a buffer iff fewer packet-ins than free buffers precede
+it in the log; everything else is untouched; the free count drops by the number of packet-ins (not below zero) -/
+theorem settle_spec : ∀ (outs : List Out) (free : Nat),
+    (settle free outs).1 = free - pins outs ∧ (settle free outs).2.length = outs.length ∧
+    ∀ i : Nat, (settle free outs).2[i]? = (outs[i]?).map (setBuffered (decide (pins (outs.take i) < free))) := by
+  intro outs
+  induction outs with
+  | nil => intro free; simp [settle, pins]
+  | cons x rest ih =>
+    intro free
+    cases hx : isPin x with
+    | true =>
+      obtain ⟨p, r, d, dl, b, rfl⟩ : ∃ p r d dl b, x = Out.packetIn p r d dl b := by
+        cases x <;> simp [isPin] at hx
+        exact ⟨_, _, _, _, _, rfl⟩
+      obtain ⟨h1, h2, h3⟩ := ih (free - 1)
+      refine ⟨?_, ?_, ?_⟩
+      · simp only [settle, h1, pins_cons, hx, if_true]; omega
+      · simp [settle, h2]
+      · intro i
+        cases i with
+        | zero =>
+          simp [settle, pins, setBuffered]
+          exact decide_eq_decide.mpr Iff.rfl
+        | succ j =>
+          simp only [settle, List.getElem?_cons_succ, h3 j, List.take_succ_cons, pins_cons, hx, if_true]
+          have e : decide (pins (List.take j rest) < free - 1) = decide (1 + pins (List.take j rest) < free) := by
+            apply decide_eq_decide.mpr; omega
+          rw [e]
+    | false =>
+      have hs : settle free (x :: rest) = ((settle free rest).1, x :: (settle free rest).2) := by
+        cases x <;> simp [isPin] at hx <;> rfl
+      have hb : ∀ b, setBuffered b x = x := by
+        intro b; cases x <;> simp [isPin] at hx <;> rfl
+      obtain ⟨h1, h2, h3⟩ := ih free
+      refine ⟨?_, ?_, ?_⟩
+      · simp [hs, h1, pins_cons, hx]
+      · simp [hs, h2]
+      · intro i
+        cases i with
+        | zero => simp [hs, hb]
+        | succ j => simp [hs, h3 j, pins_cons, hx]
 
 /-! ## every emitted frame is the wire form of a well-formed frame (so its lengths and checksums are valid) -/
 
